@@ -5,9 +5,12 @@
    along every differentiable curve of all parameters (mlp_model_gradient), and entry by entry as
    partial derivatives (mlp_model_partial_derivative). The network is written in canonical form
    (layer k reads its o_k x n_k weights and o_k biases from a parameter vector theta_k);
-   differentiability of relu-type activations is required at the pre-activations actually reached. *)
+   differentiability of relu-type activations is required at the pre-activations actually reached.
+   The second half replaces the mean-squared error by any objective with a local contract and proves
+   the contract for absolute error, mean-squared error, binary cross-entropy and KL divergence. *)
 From NV Require Import Prelude Num NumR Random Tensor Activation Objective Optimizer Layers Network Learn.
-From NV.Theory Require Import RSum Chain ChainDense NetDeriv.
+From NV.Theory Require Import RSum Chain ChainDense NetDeriv NetDerivObj.
+From NV.Theory Require C06.
 Require Import Reals List.
 From Coquelicot Require Import Coquelicot.
 Import ListNotations.
@@ -165,4 +168,90 @@ Theorem C01_model_gradient_theorem_applies :
              0 (pairing cs gps).
 Proof. exact @mlp_model_gradient_applies. Qed.
 Print Assumptions C01_model_gradient_theorem_applies.
+
+Theorem C01_model_gradient_for_any_objective_with_contract :
+  forall (o : objective) (m : nat) (tgl : list R) (Lf : list R -> R) (gL : list R -> list R)
+           (n0 : network NR) (cs : curves) (d : nat) (xl : list R) (h0 : R),
+         n_connect n0 = [] ->
+         n_loopbacks n0 = [] ->
+         n_objective n0 = (o, None) ->
+         chainedS (at_t cs h0) d ->
+         length xl = d ->
+         length tgl = m ->
+         m = lastD (at_t cs h0) d ->
+         curves_ok cs h0 ->
+         smoothL (at_t cs h0) xl ->
+         loss_is o m tgl Lf gL ->
+         contract_at m Lf gL (predL (at_t cs h0) xl) h0 ->
+         exists gps : list vec,
+           length gps = length cs /\
+           sample_grad (net_at n0 cs h0) (t_single NR xl, t_single NR tgl) =
+           Ok (ws_of (at_t cs h0) gps, bs_of (at_t cs h0) gps, Lf (predL (at_t cs h0) xl)) /\
+           (forall t : R,
+            loss_of (sample_grad (net_at n0 cs t) (t_single NR xl, t_single NR tgl)) =
+            Lf (predL (at_t cs t) xl)) /\
+           is_derive
+             (fun t : R_AbsRing => loss_of (sample_grad (net_at n0 cs t) (t_single NR xl, t_single NR tgl))) h0
+             (pairing cs gps).
+Proof. exact @mlp_model_gradient_obj. Qed.
+Print Assumptions C01_model_gradient_for_any_objective_with_contract.
+
+Theorem C01_model_loss_of_separable_objectives :
+  forall (o : objective) (yl tgl : list R) (m : nat),
+         separable o ->
+         (0 < m)%nat ->
+         length yl = m ->
+         length tgl = m ->
+         loss o None (t_single NR yl) (t_single NR tgl) =
+         Ok (sepL m tgl (ell_of o (INR m)) yl, t_single NR (sepG m tgl (grad_fun NR o (INR m)) yl)).
+Proof. exact @loss_separable. Qed.
+Print Assumptions C01_model_loss_of_separable_objectives.
+
+Theorem C01_separable_objective_terms_are_differentiable :
+  forall (o : objective) (n a q : R),
+         n <> 0 -> ell_smooth_at o a q -> is_derive (ell_of o n a) q (grad_fun NR o n a q).
+Proof. exact @ell_derive. Qed.
+Print Assumptions C01_separable_objective_terms_are_differentiable.
+
+Theorem C01_model_gradient_is_the_derivative_separable_objectives :
+  forall (o : objective) (n0 : network NR) (cs : curves) (d : nat) (xl tgl : list R) (h0 : R),
+         separable o ->
+         n_connect n0 = [] ->
+         n_loopbacks n0 = [] ->
+         n_objective n0 = (o, None) ->
+         chainedS (at_t cs h0) d ->
+         length xl = d ->
+         length tgl = lastD (at_t cs h0) d ->
+         (0 < length tgl)%nat ->
+         curves_ok cs h0 ->
+         smoothL (at_t cs h0) xl ->
+         (forall i : nat, (i < length tgl)%nat -> ell_smooth_at o (vof tgl i) (vof (predL (at_t cs h0) xl) i)) ->
+         let m := length tgl in
+         let Lf := sepL m tgl (ell_of o (INR m)) in
+         exists gps : list vec,
+           length gps = length cs /\
+           sample_grad (net_at n0 cs h0) (t_single NR xl, t_single NR tgl) =
+           Ok (ws_of (at_t cs h0) gps, bs_of (at_t cs h0) gps, Lf (predL (at_t cs h0) xl)) /\
+           (forall t : R,
+            loss_of (sample_grad (net_at n0 cs t) (t_single NR xl, t_single NR tgl)) =
+            Lf (predL (at_t cs t) xl)) /\
+           is_derive
+             (fun t : R_AbsRing => loss_of (sample_grad (net_at n0 cs t) (t_single NR xl, t_single NR tgl))) h0
+             (pairing cs gps).
+Proof. exact @mlp_model_gradient_separable. Qed.
+Print Assumptions C01_model_gradient_is_the_derivative_separable_objectives.
+
+Theorem C01_separable_theorem_applies_to_bce :
+  forall (th : vec) (x1 x2 y : R),
+         let s := {| ls_o := 1; ls_n := 2; ls_act := Sigmoid; ls_bias := true |} in
+         let cs := ((s, fun (t : R) (i : nat) => th i + t, fun _ : nat => 1) :: nil) in
+         C06.eps_R < vof (predL (at_t cs 0) [x1; x2]) 0%nat < 1 - C06.eps_R ->
+         exists gps : list vec,
+           is_derive
+             (fun t : R_AbsRing =>
+              loss_of
+                (sample_grad (net_at (set_objective (network_new NR (SSingle 2)) BinaryCrossEntropy None) cs t)
+                   (t_single NR [x1; x2], t_single NR (y :: nil)))) 0 (pairing cs gps).
+Proof. exact @separable_applies_bce. Qed.
+Print Assumptions C01_separable_theorem_applies_to_bce.
 
